@@ -10,7 +10,8 @@ MANIFEST = dict(
     design='6/C16')
 
 THEOREMS = ["Props.C16.C16_threshold_filter", "Props.C16.C16_counts_consistent", "Props.C16.C16_scan_pure",
-            "Props.C16.C16_position_visited", "Props.C16.C16_statement_is_root", "Props.C16.C16_context_closed", "Props.C16.C16_findings_sound",
+            "Props.C16.C16_position_visited", "Props.C16.C16_statement_is_root", "Props.C16.C16_context_closed",
+            "Props.C16.C16_explain_query_dropped_refuted", "Props.C16.C16_findings_sound",
             "Props.C16.C16_literal_tautology", "Props.C16.C16_column_tautology", "Props.C16.C16_or_tautology",
             "Props.C16.C16_time_function", "Props.C16.C16_dangerous_function", "Props.C16.C16_union_nulls",
             "Props.C16.C16_union_system_table"]
@@ -138,6 +139,8 @@ def query_contexts():
         ("create_view_body", lambda q: ("createview", ("", False, ""), "zv1", [], q) if viewable(q) else None),
         ("create_or_replace_view_cols_body", lambda q: ("createview", ("OR REPLACE", False, "WITH CHECK OPTION"), "zs.zv2", ["zc1", "zc2"], q) if viewable(q) else None),
         ("create_matview_body", lambda q: ("creatematview", (True, "WITH NO DATA"), "Zmv3", [], q) if viewable(q) else None),
+        ("explain_query", lambda q: ("explain", "EXPLAIN", q) if viewable(q) else None),
+        ("describe_query", lambda q: ("explain", "DESCRIBE", q) if viewable(q) else None),
     ]
 
 
